@@ -108,6 +108,9 @@ def fresh_process_render(case, fmt):
 def history_fails(case, fmt):
     """hidden process-wide state: a fresh copy rendered here (after whatever this process rendered before) must
     equal the rendering of a process that has rendered nothing else"""
+    import os
+    if os.environ.get('PYTHONHASHSEED', 'random') == 'random':
+        return []           # (this process and a new one hash strings differently: outputs that follow set order may differ)
     here = render(build_batch(case), fmt)
     there = fresh_process_render(case, fmt)
     if here != there:
